@@ -110,6 +110,81 @@ exhaustive_prim!(ex_u32, u32, |i| Some(i as u32));
 exhaustive_prim!(ex_i32, i32, |i| Some(i as u32 as i32));
 exhaustive_prim!(ex_f32, f32, |i| Some(f32::from_bits(i as u32)));
 
+/// Collections and strings whose length crosses the 65535 / 65536 head boundary (and a few far beyond): built directly,
+/// round-tripped with junk appended, exact consumption; `len` must agree too (C07 shares this generator).
+pub fn large_value(g: &mut Gen, st: &mut Stats, check_len: bool) -> CaseResult {
+    use crate::model::Same;
+    use std::collections::{BTreeMap, BTreeSet, HashSet, LinkedList, VecDeque};
+    st.eval();
+    let n = *g.pick(&[65_535usize, 65_536, 65_537, 70_000, 131_072]);
+    fn rt<T: minicbor::Encode<()> + for<'b> minicbor::Decode<'b, ()> + minicbor::CborLen<()> + Same>(name: &str, v: T, n: usize, check_len: bool, g: &mut Gen) -> CaseResult {
+        let bytes = minicbor::to_vec(&v).map_err(|e| vcore::Fail::new("encode-refused", format!("{} with {} elements: {}", name, n, e)))?;
+        if check_len { ensure!(minicbor::len(&v) == bytes.len(), "len-mismatch", "len({} with {} elements) = {} but {} bytes are written", name, n, minicbor::len(&v), bytes.len()); return Ok(()) }
+        let mut buf = bytes.clone();
+        for _ in 0 .. g.below(3) { buf.push(g.byte()) }
+        let mut d = Decoder::new(&buf);
+        let back: T = d.decode().map_err(|e| vcore::Fail::new("decode-failed", format!("{} with {} elements: decode of own encoding ({} bytes, head {}) failed: {}", name, n, bytes.len(), short_hex(&bytes[.. 6.min(bytes.len())]), e)))?;
+        ensure!(v.same(&back), "value-mismatch", "{} with {} elements does not round-trip (encoding starts {})", name, n, short_hex(&bytes[.. 8.min(bytes.len())]));
+        ensure!(d.position() == bytes.len(), "position", "{} with {} elements: {} bytes written, {} consumed", name, n, bytes.len(), d.position());
+        Ok(())
+    }
+    let label = match g.below(12) {
+        0 => { rt("Vec<u8>", (0 .. n).map(|i| i as u8).collect::<Vec<u8>>(), n, check_len, g)?; "large/Vec<u8>" }
+        1 => { rt("Vec<bool>", (0 .. n).map(|i| i % 3 == 0).collect::<Vec<bool>>(), n, check_len, g)?; "large/Vec<bool>" }
+        2 => { rt("String", "a".repeat(n), n, check_len, g)?; "large/String" }
+        3 => { rt("String (2-byte chars)", "\u{e9}".repeat(n / 2), n, check_len, g)?; "large/String" }
+        4 => { rt("ByteVec", minicbor::bytes::ByteVec::from(vec![0x5a; n]), n, check_len, g)?; "large/ByteVec" }
+        5 => { rt("VecDeque<i16>", crate::registry::deque_with_layout(&(0 .. n).map(|i| i as i16).collect::<Vec<i16>>(), n / 3, 1 + (n % 2) as u8), n, check_len, g)?; "large/VecDeque<i16>" }
+        6 => { rt("BTreeMap<u32,u8>", (0 .. n as u32).map(|i| (i, i as u8)).collect::<BTreeMap<u32, u8>>(), n, check_len, g)?; "large/BTreeMap<u32,u8>" }
+        7 => { rt("HashSet<u32>", (0 .. n as u32).collect::<HashSet<u32>>(), n, check_len, g)?; "large/HashSet<u32>" }
+        8 => { rt("Vec<Option<()>>", (0 .. n).map(|i| if i % 2 == 0 { None } else { Some(()) }).collect::<Vec<Option<()>>>(), n, check_len, g)?; "large/Vec<Option<()>>" }
+        9 => { rt("LinkedList<u8>", (0 .. n).map(|i| i as u8).collect::<LinkedList<u8>>(), n, check_len, g)?; "large/LinkedList<u8>" }
+        10 => { rt("BTreeSet<u32>", (0 .. n as u32).collect::<BTreeSet<u32>>(), n, check_len, g)?; "large/BTreeSet<u32>" }
+        _ => { rt("Vec<(u8,bool)>", (0 .. n).map(|i| (i as u8, i % 2 == 0)).collect::<Vec<(u8, bool)>>(), n, check_len, g)?; "large/Vec<(u8,bool)>" }
+    };
+    st.class(label);
+    st.nontrivial(hash_of(&(label, n, check_len)));
+    Ok(())
+}
+fn large(g: &mut Gen, st: &mut Stats) -> CaseResult { large_value(g, st, false) }
+
+/// The free functions and methods that take an explicit context (`*_with`) or a caller-provided sink are documented as
+/// variants of the plain ones: same bytes, same value, same length.
+pub fn api_variants<E: Entry>(g: &mut Gen, st: &mut Stats) -> CaseResult {
+    scoped(E::NAME, || {
+        st.eval();
+        let seed = E::seed(g);
+        let v = E::view(&seed);
+        let bytes = match minicbor::to_vec(&v) { Ok(b) => b, Err(_) => return Ok(()) };
+        let mut ctx = ();
+        let b2 = minicbor::to_vec_with(&v, &mut ctx).map_err(|e| vcore::Fail::new("encode-refused", format!("to_vec_with({:?}): {}", v, e)))?;
+        let mut b3 = Vec::new();
+        minicbor::encode(&v, &mut b3).map_err(|e| vcore::Fail::new("encode-refused", format!("encode({:?}): {}", v, e)))?;
+        let mut b4 = vec![0xaa];
+        minicbor::encode_with(&v, &mut b4, &mut ctx).map_err(|e| vcore::Fail::new("encode-refused", format!("encode_with({:?}): {}", v, e)))?;
+        let mut e5 = minicbor::Encoder::new(Vec::new());
+        e5.encode(&v).map_err(|e| vcore::Fail::new("encode-refused", e.to_string()))?;
+        let mut e6 = minicbor::Encoder::new(Vec::new());
+        e6.encode_with(&v, &mut ctx).map_err(|e| vcore::Fail::new("encode-refused", e.to_string()))?;
+        ensure!(b2 == bytes && b3 == bytes && b4[1 ..] == bytes[..] && e5.writer() == &bytes && e6.into_writer() == bytes, "encode-variants-differ", "{:?}: to_vec gives {} but a context / sink variant gives other bytes", v, short_hex(&bytes));
+        ensure!(minicbor::len(&v) == minicbor::len_with(&v, &mut ctx), "len-variants-differ", "len and len_with differ for {:?}", v);
+        let a: E::Val<'_> = minicbor::decode(&bytes).map_err(|e| vcore::Fail::new("decode-failed", format!("decode({}): {}", short_hex(&bytes), e)))?;
+        let b: E::Val<'_> = minicbor::decode_with(&bytes, &mut ctx).map_err(|e| vcore::Fail::new("decode-failed", format!("decode_with({}): {}", short_hex(&bytes), e)))?;
+        let mut d = Decoder::new(&bytes);
+        let c: E::Val<'_> = d.decode_with(&mut ctx).map_err(|e| vcore::Fail::new("decode-failed", format!("Decoder::decode_with({}): {}", short_hex(&bytes), e)))?;
+        ensure!(E::same(&v, &a) && E::same(&v, &b) && E::same(&v, &c), "decode-variants-differ", "{:?} encoded as {}: decode / decode_with / Decoder::decode_with do not all return it", v, short_hex(&bytes));
+        ensure!(d.position() == bytes.len() && d.input().len() == bytes.len(), "position", "Decoder::decode_with consumed {} of {}", d.position(), bytes.len());
+        if bytes.len() >= 2 { st.nontrivial(crate::registry::stable_hash::<E>(&bytes)) }
+        Ok(())
+    })
+}
+macro_rules! av_row { ($e:ident) => { api_variants::<$e> as vcore::engine::RandomFn } }
+fn variants(g: &mut Gen, st: &mut Stats) -> CaseResult {
+    static T: std::sync::OnceLock<Vec<vcore::engine::RandomFn>> = std::sync::OnceLock::new();
+    let t = T.get_or_init(|| crate::for_each_entry!(av_row));
+    t[g.below(t.len())](g, st)
+}
+
 pub fn subs() -> Vec<Sub> {
     let en = |name, n: u64, f, thorough_only: bool| Sub {
         prop: "C01", name,
@@ -120,6 +195,10 @@ pub fn subs() -> Vec<Sub> {
         Sub { prop: "C01", name: "types",
               rule: "tape-generated value of a registry type (uniform over ~120 instantiations, boundary-dense leaves) -> to_vec -> decode with 0-3 junk bytes appended; non-trivial = encoding >= 2 bytes; distinct by (type, bytes)",
               kind: Kind::Random { quick: 1_200_000, thorough: 12_000_000, tape: 1024, f: random_types } },
+        Sub { prop: "C01", name: "api-variants", rule: "registry values through to_vec / to_vec_with / encode / encode_with / Encoder::encode / Encoder::encode_with (same bytes), len / len_with, decode / decode_with / Decoder::decode_with (same value, exact consumption)",
+              kind: Kind::Random { quick: 300_000, thorough: 3_000_000, tape: 1024, f: variants } },
+        Sub { prop: "C01", name: "large", rule: "collections, strings and byte strings of 65535 / 65536 / 65537 / 70000 / 131072 elements (Vec, VecDeque with a wrapped buffer, LinkedList, BTreeMap, BTreeSet, HashSet, String, ByteVec): round trip with junk appended, exact consumption",
+              kind: Kind::Random { quick: 400, thorough: 4_000, tape: 64, f: large } },
         Sub { prop: "C01", name: "refused",
               rule: "pre-epoch SystemTime / non-UTF-8 Path: encoder must refuse without panic; distinct by value",
               kind: Kind::Random { quick: 10_000, thorough: 50_000, tape: 64, f: refused } },
